@@ -6,20 +6,20 @@ From HV Require Import Base.Prelude Model.GroupNS.
 From HV Require Import Proofs.GroupNSHeap Proofs.GroupNSInv Proofs.GroupNSRead Proofs.GroupNSLink Proofs.GroupNSWitness.
 
 (* For every admissible history (paths in the specification's syntax; hard-link targets are datasets)
-   without soft links: every call returns the same ok/err class as the specification (which rejects
+   without soft links and with fewer calls than the reader's nesting limit (1024): every call returns the same ok/err class as the specification (which rejects
    duplicate names, missing or non-group parents, missing targets, and refuses exactly at the capacity
    limits), and the reader's walk of the final state yields exactly the specification's tree. *)
-Theorem C03_refines : forall c h, adm c s_empty h = true -> no_soft h = true ->
+Theorem C03_refines : forall c h, adm c s_empty h = true -> no_soft h = true -> not_too_deep c h = true ->
   map is_ok (snd (run (step c) (init c) h)) = map is_ok (snd (run (spec_step c) s_empty h)) /\
-  exists tr, read_tree (fst (run (step c) (init c) h)) = Some tr /\
+  exists tr, read_tree c (fst (run (step c) (init c) h)) = Some tr /\
              spec_tree (fst (run (spec_step c) s_empty h)) = Some tr.
 Proof. exact refines. Qed.
 Print Assumptions C03_refines.
 
 (* The same with soft links in the history: the reader shows each soft link object as an empty group. *)
-Theorem C03_refines_reader_view : forall c h, adm c s_empty h = true ->
+Theorem C03_refines_reader_view : forall c h, adm c s_empty h = true -> not_too_deep c h = true ->
   map is_ok (snd (run (step c) (init c) h)) = map is_ok (snd (run (spec_step c) s_empty h)) /\
-  exists tr, read_tree (fst (run (step c) (init c) h)) = Some tr /\
+  exists tr, read_tree c (fst (run (step c) (init c) h)) = Some tr /\
              spec_tree_as KGroup (fst (run (spec_step c) s_empty h)) = Some tr.
 Proof. exact refines_reader_view. Qed.
 Print Assumptions C03_refines_reader_view.
@@ -77,11 +77,17 @@ Print Assumptions C03_hardlink_same_object.
 (* target_is_data: a hard link to a group; both sides accept every call, the reader lists /h without children *)
 Theorem C03_group_hardlink_refuted :
   names_ok go_cfg h_group_hardlink = true /\ all_ok (snd (go h_group_hardlink)) = true /\ all_ok (snd (sp h_group_hardlink)) = true /\
-  read_tree (fst (go h_group_hardlink)) <> spec_tree (fst (sp h_group_hardlink)) /\
-  read_tree (fst (go h_group_hardlink)) =
+  read_tree go_cfg (fst (go h_group_hardlink)) <> spec_tree (fst (sp h_group_hardlink)) /\
+  read_tree go_cfg (fst (go h_group_hardlink)) =
     Some (TNode 0 KGroup [(b "g", TNode 1 KGroup [(b "x", TNode 2 KGroup [])]); (b "h", TNode 1 KGroup [])]).
 Proof. exact group_hardlink_refuted. Qed.
 Print Assumptions C03_group_hardlink_refuted.
+(* target_is_data, sub-case: the target encloses the link; the file cannot be opened at all *)
+Theorem C03_ancestor_link_refuted :
+  all_ok (snd (go h_ancestor_link)) = true /\ all_ok (snd (sp h_ancestor_link)) = true /\
+  read_tree go_cfg (fst (go h_ancestor_link)) = None.
+Proof. exact ancestor_link_refuted. Qed.
+Print Assumptions C03_ancestor_link_refuted.
 Theorem C03_alias_parent_refuted :
   map is_ok (snd (go h_alias_parent)) = [true; true; false] /\ map is_ok (snd (sp h_alias_parent)) = [true; true; true].
 Proof. exact alias_parent_refuted. Qed.
@@ -89,7 +95,7 @@ Print Assumptions C03_alias_parent_refuted.
 (* no_soft *)
 Theorem C03_soft_link_refuted :
   adm go_cfg s_empty h_soft = true /\ all_ok (snd (go h_soft)) = true /\
-  read_tree (fst (go h_soft)) = Some (TNode 0 KGroup [(b "d", TNode 1 KData []); (b "s", TNode 2 KGroup [])]) /\
+  read_tree go_cfg (fst (go h_soft)) = Some (TNode 0 KGroup [(b "d", TNode 1 KData []); (b "s", TNode 2 KGroup [])]) /\
   spec_tree (fst (sp h_soft)) = Some (TNode 0 KGroup [(b "d", TNode 1 KData []); (b "s", TNode 2 KSoft [])]).
 Proof. exact soft_link_refuted. Qed.
 Print Assumptions C03_soft_link_refuted.
@@ -109,7 +115,7 @@ Proof. exact nul_name_refuted. Qed.
 Print Assumptions C03_nul_name_refuted.
 Theorem C03_trailing_slash_refuted :
   snd (gob h_trailing_slash) = [Ok; Err ENoParent; Ok] /\
-  read_tree (fst (gob h_trailing_slash)) = Some (TNode 0 KGroup [(b "a", TNode 1 KGroup [(b "b", TNode 3 KGroup [])])]).
+  read_tree base_cfg (fst (gob h_trailing_slash)) = Some (TNode 0 KGroup [(b "a", TNode 1 KGroup [(b "b", TNode 3 KGroup [])])]).
 Proof. exact trailing_slash_refuted. Qed.
 Print Assumptions C03_trailing_slash_refuted.
 (* C03_err_unchanged_all does not extend to CreateHardLink *)
@@ -134,3 +140,11 @@ Theorem C03_repairs_remove_witnesses :
    option_map refcount (alookup 1 (objects (fst (step_body fixed_cfg w o_rollback)))) = Some 1).
 Proof. exact repairs_remove_witnesses. Qed.
 Print Assumptions C03_repairs_remove_witnesses.
+
+(* not_too_deep (shown with the limit set to 2) *)
+Theorem C03_too_deep_refuted :
+  adm shallow_cfg s_empty h_deep = true /\ all_ok (snd (run (step shallow_cfg) (init shallow_cfg) h_deep)) = true /\
+  read_tree shallow_cfg (fst (run (step shallow_cfg) (init shallow_cfg) h_deep)) = None /\
+  spec_tree (fst (run (spec_step shallow_cfg) s_empty h_deep)) <> None.
+Proof. exact too_deep_refuted. Qed.
+Print Assumptions C03_too_deep_refuted.
